@@ -63,6 +63,10 @@ pub fn write(prop: &str, tier: &str, seed: u64, m: &WorkerOut, nviol: u64, wall:
     } else {
         m.samples.clone()
     };
+    let conformance: Value = std::fs::read_to_string(format!("{}/sim/conformance_result.json", verif_dir()))
+        .ok()
+        .and_then(|s| serde_json::from_str(&s).ok())
+        .unwrap_or_else(|| json!("conformance lane not run in this checkout (./check conformance)"));
     let ev = json!({
         "property_id": prop,
         "tier": if tier == "thorough" { "thorough" } else { "quick" },
@@ -86,6 +90,7 @@ pub fn write(prop: &str, tier: &str, seed: u64, m: &WorkerOut, nviol: u64, wall:
             "workers": workers,
             "stopped_early_by_wall_clock": m.stopped_early,
             "exhaustive": false,
+            "stub_conformance_vs_real_kernel": conformance,
             "components": {
                 "real": ["minidump-writer src/linux/**", "src/dir_section.rs", "src/mem_writer.rs", "nix", "procfs-core", "goblin", "memmap2", "scroll", "error-graph", "failspot", "serde_json", "std"],
                 "stub": ["Linux kernel (process, ptrace, signals, procfs, VFS, mm)", "target process", "clock", "destination"]
